@@ -10,6 +10,17 @@ CL_NOTE = ('trusted base: the API-server model and the virtual-time scheduler of
            'assumption, see DESIGN 2.2/8); only async handlers; schedules reachable by moving external events in time')
 
 CHECKS = {
+    'C01': dict(
+        technique='property-based testing with harness-owned schedules: Hypothesis-generated event arrival times / processing durations '
+                  '(palette around idle_timeout incl. +-1e-10 s), worker limits, stream breaks and cancellation instants, driven through '
+                  'the real queueing.watcher() and watch stack in virtual time; oracle = history invariants against the server\'s '
+                  'per-connection delivery log',
+        text='Component-level (recording processor) and closed-loop (on.event recorder) exploration: per-object processed sequence is a '
+             'gap-free prefix of what the API delivered (all of it without cancellation; after a cancellation whatever fits into '
+             'exit_timeout), per-object intervals never overlap, never more than worker_limit processors, no event waits while its '
+             'worker or a slot is free. The schedule "event arrives at the instant the idle worker retires" is a generated value. '
+             'Bounded exploration of schedules reachable by moving arrivals in time.',
+        design_ref='5/C01'),
     'C02': dict(
         technique='property-based testing: Hypothesis-generated closed-loop histories run against the real operator in a '
                   'virtual-time simulation; oracle = history invariants over handler log x server version history',
